@@ -36,6 +36,7 @@ type RunCtx struct {
 	Infra   []string // infrastructure failures (exit 2)
 	Notes   []string
 	KFHits  map[string]int
+	judgeSeq int
 	samples []any
 }
 
@@ -276,6 +277,8 @@ func (rc *RunCtx) judgeShards(module string, nShards int, prep func(shard int, d
 		err error
 	}
 	outs := make([]out, nShards)
+	rc.judgeSeq++
+	seq := rc.judgeSeq
 	par := runtime.NumCPU()
 	if par < 1 {
 		par = 1
@@ -288,7 +291,7 @@ func (rc *RunCtx) judgeShards(module string, nShards int, prep func(shard int, d
 			defer wg.Done()
 			sem <- struct{}{}
 			defer func() { <-sem }()
-			dir := filepath.Join(rc.Dir, fmt.Sprintf("%s-shard%d", module, s))
+			dir := filepath.Join(rc.Dir, fmt.Sprintf("%s-j%d-shard%d", module, seq, s))
 			if err := os.MkdirAll(dir, 0o755); err != nil {
 				outs[s].err = err
 				return
